@@ -18,7 +18,7 @@ Oracles
            that ran the same history without any fault.
 Faults during open that open swallows are logged as observations, not judged (DESIGN C12 S).
 """
-import os, sys, json, time
+import os, sys, json, time, hashlib
 import vlib, zoo, seekgraph
 from seekgraph import parse_out
 
@@ -75,6 +75,9 @@ def load(tier):
     files['MT2'] = vlib.chain('c12_mt2', [zoo.link('A', 1301, '3'), mux_tail('B', 1302, '3', 7301)])
     files['MT3'] = vlib.chain('c12_mt3', [zoo.link('A', 1311, '4'), zoo.link('C', 1312, '2'), mux_tail('A', 1313, '3', 7302)])
     exe, listfile, models = seekgraph.load_models(files, 'asan')
+    # the executor is harness/vfx.c itself (#included by c12_fx.c) with ov_raw_tell added to every result line as W=
+    sha = hashlib.sha256(open(os.path.join(vlib.ROOT, 'harness', 'vfx.c'), 'rb').read()).hexdigest()[:16]
+    exe = vlib.harness('asan', 'c12_fx', extra='-DC12_VFX_SHA=0x%s' % sha)
     return exe, listfile, {m.name: m for m in models}
 
 
@@ -293,6 +296,7 @@ class Dev:
         self.open_scn = {}
         self.timing = []
         self.machinery = []
+        self.rawtells = set()      # distinct (scenario, raw position reported after a faulted history)
         self.dropped = []          # scenarios whose fault-free run did not complete (reported as violations)
         self.xlap = {}             # lapped seek kind -> persisting read faults applied inside a link-crossing lapped seek
         self.ref_total, self.ref_unclean = 0, []
@@ -383,9 +387,12 @@ class Dev:
     def recovery_ops(self, fm):
         if fm.name not in self.rtargets:
             ops = ['ps%d' % p for p in recovery_targets(fm)]
+            pts, raw = seek_targets(fm)
+            # raw seeks to three fixed offsets (just behind a page boundary near the start, mid-file, inside the last
+            # page); the raw seek to the handle's OWN raw position is added per faulted run (see _stage)
+            ops += ['rs%d' % o for o in raw]
             if self.tier == 'thorough':
-                pts, raw = seek_targets(fm)
-                ops += ['pp%d' % pts[1], 'rs%d' % raw[1], 'ts' + time_of(fm, pts[1])]
+                ops += ['pp%d' % pts[1], 'ts' + time_of(fm, pts[1])]
             self.rtargets[fm.name] = ops
         return self.rtargets[fm.name]
 
@@ -411,7 +418,7 @@ class Dev:
         res = self.rn.run([case_line(s.fm, s.mode, f, 'none', s.ops) for s, f in todo])
         self.timing.append(('safety runs', len(todo), round(time.time() - t_st, 1)))
         out = {}
-        rec_cases, rec_idx = [], []
+        rec_cases, rec_idx, dyn_refs = [], [], []
         for (s, f), r in zip(todo, res):
             out[(s.name, f)] = r
             self.chk.cov['evaluations'] += 1
@@ -477,13 +484,40 @@ class Dev:
                 if s.ref.get(rop) is None:
                     continue
                 rec_cases.append(case_line(s.fm, s.mode, f, 'plin', s.ops + ['q', rop]))
-                rec_idx.append((s, f, rop, phase))
+                rec_idx.append((s, f, rop, phase, False))
+            # ov_raw_seek(vf, ov_raw_tell(vf)): the raw position THIS faulted handle reports (W of the run above; `q` does
+            # not move it).  The reference is a handle with the same history and no fault seeking to the same number.
+            w = int(r.get('W', -1))
+            if 0 <= w <= s.fm.size:
+                rop = 'rs%d' % w
+                if rop not in s.ref:
+                    s.ref[rop] = 'pending'
+                    dyn_refs.append((s, rop))
+                rec_cases.append(case_line(s.fm, s.mode, f, 'plin', s.ops + ['q', rop]))
+                rec_idx.append((s, f, rop, phase, True))
+                self.stats['raw_tell_probes'] = self.stats.get('raw_tell_probes', 0) + 1
+                self.rawtells.add((s.name, w))
+            else:
+                self.chk.violation(key_for('raw_tell_out_of_range', s, f, phase), '%s, faults %s: ov_raw_tell reports %d on an open handle (file size %d)' % (s.name, fault_name(f), w, s.fm.size),
+                                   self.replay_of(s, f, 'none', s.ops, 'safety'))
+        if dyn_refs:
+            res = self.rn.run([case_line(s.fm, s.mode, (), 'plin', s.ops + ['q', rop]) for s, rop in dyn_refs])
+            for (s, rop), r in zip(dyn_refs, res):
+                if 'err' in r:
+                    self.faultfree_failure(s, s.ops + ['q', rop], 'plin', r, 'fault-free recovery reference')
+                    s.ref[rop] = None
+                else:
+                    s.ref[rop] = recovery_view(r, len(s.ops))
+                    self.ref_total += 1
         t_st = time.time()
         res = self.rn.run(rec_cases)
         self.timing.append(('recovery runs', len(rec_cases), round(time.time() - t_st, 1)))
-        for (s, f, rop, phase), r in zip(rec_idx, res):
+        for (s, f, rop, phase, dyn), r in zip(rec_idx, res):
             self.chk.cov['evaluations'] += 1
             self.stats['recovery_cases'] += 1
+            if s.ref.get(rop) is None:
+                continue
+            rk = 'rs_at_raw_tell' if dyn else rop[:2]
             self.per_scn[s.name]['recovery_cases'] += 1
             ops = s.ops + ['q', rop]
             probs = safety_problems(r, s, ops)
@@ -498,10 +532,10 @@ class Dev:
             if 'err' in r:
                 continue
             v = recovery_view(r, len(s.ops))
-            self.outcomes.add((s.cls, phase, tuple(x[1:] for x in f), 'rec', rop[:2], v[0], (v[2] or '')[:6] if len(v) > 2 else ''))
+            self.outcomes.add((s.cls, phase, tuple(x[1:] for x in f), 'rec', rk, v[0], (v[2] or '')[:6] if len(v) > 2 else ''))
             if v != s.ref[rop]:
                 why = 'rc%d' % v[0] if v[0] != s.ref[rop][0] else 'tell' if v[1] != s.ref[rop][1] else 'audio'
-                self.chk.violation(key_for('recovery_%s_%s' % (rop[:2], why), s, f, phase),
+                self.chk.violation(key_for('recovery_%s_%s' % (rk, why), s, f, phase),
                                    '%s: after faults %s (first in %s) and q, %s gives (rc, tell, read-through)=%r; a handle that never saw the failure gives %r'
                                    % (s.name, fault_name(f), phase, rop, v, s.ref[rop]), self.replay_of(s, f, 'plin', ops, 'recovery', rop))
         return out
@@ -659,6 +693,7 @@ def run(tier):
         'stats': dev.stats,
         'effective_faults_by_phase': {'%s/%s/%s' % k: v for k, v in sorted(dev.phase_hits.items())},
         'observations_not_judged': dev.obs,
+        'distinct_raw_tell_probe_offsets': len(dev.rawtells),
         'scenarios_dropped_fault_free_run_failed': dev.dropped,
         'persisting_read_faults_inside_cross_link_lapped_seeks': dev.xlap,
         'recovery_references': {'total': dev.ref_total, 'not_a_clean_seek': dev.ref_unclean[:20]},
@@ -687,6 +722,7 @@ def run(tier):
     chk.guard(not dev.det_errors, 'runs whose deviation was never reached are identical to the fault-free run: %r' % (dev.det_errors[:1],))
     chk.guard(dev.cut or dev.stats['recovery_cases'] > 500, 'recovery clause exercised')
     chk.guard(all(len(v) >= 8 for v in dev.rtargets.values()) and len(dev.rtargets) >= 2, '8 recovery targets per file')
+    chk.guard(dev.cut or (dev.stats.get('raw_tell_probes', 0) > 200 and len(set(w for _, w in dev.rawtells)) >= 4), 'raw seek to the faulted handle\'s own ov_raw_tell probed after post-open faults, at >= 4 distinct offsets')
     for big in [s for s in scns if s.fm.name == 'BIG']:
         chk.guard(int(big.base.get('B', 0)) > CHUNKSIZE and big.fm.size > 2 * CHUNKSIZE, 'large chain: open performs seeks further than CHUNKSIZE back (bisection / chunked backward scan reached)')
     for s in scns:
